@@ -246,7 +246,7 @@ Proof.
       rewrite Hdg by exact Hne. apply J4; [exact Hi'|].
       intros H. apply Hnin. apply in_or_app. left. exact H.
     + intros j' Hj' Hne. rewrite Hoff by (intros E; apply Hne; symmetry; exact E).
-      rewrite J5 by assumption. rewrite extb_snoc. unfold extf at 2. cbn [fst snd].
+      rewrite J5 by assumption. rewrite extb_snoc. unfold extf. cbn [fst snd].
       rewrite andb_negb_r. cbn [andb]. rewrite orb_false_r. reflexivity.
     + split.
       * intros [s [Hin Hm]]. apply in_app_or in Hin. destruct Hin as [Hin|Hin].
@@ -324,7 +324,7 @@ Proof.
       destruct (J4 i' Hi') as [K1 K2].
       { intros H. apply Hnin. apply in_or_app. left. exact H. }
       split; [apply D2; exact K1 | rewrite D1; exact K2].
-    + intros j' Hj' Hne. rewrite extb_snoc. unfold extf at 2. cbn [fst snd].
+    + intros j' Hj' Hne. rewrite extb_snoc. unfold extf. cbn [fst snd].
       destruct (Nat.eqb_spec j j') as [<-|Hjj].
       * (* the cell that received the copies *)
         rewrite B3, Hvpm, (J5 j Hj Hne), Hvp.
@@ -381,7 +381,7 @@ Lemma rval_idx r c x y i j :
   rval r c x y = val (mget (rmat r) i j) c.
 Proof. intros Hx Hy. unfold rval. rewrite (cell_idx r x y i j Hx Hy). reflexivity. Qed.
 
-Theorem loop_correction_sem : loop_correction_sem_stmt.
+Theorem loop_correction_sem_main : loop_correction_sem_stmt.
 Proof.
   unfold loop_correction_sem_stmt. intros r x Hwf Hpwf Hnfz Hx.
   destruct (var_index r x Hwf Hx) as [ell [Hxe Hell]].
@@ -467,7 +467,7 @@ Proof.
             * rewrite (Hcol0 a Ha Hnea) in E. discriminate.
           + (* the cells (x, v), v <> x *)
             rewrite (J5 j' Hj' Hnej). unfold val0.
-            assert (Eb : extb n (rmat r) c (cells_idx (rmat r)) j' =
+            assert (Eb : extb (rmat r) c (cells_idx (rmat r)) j' =
                          existsb (fun i => L_PROPAGATE (rval r c i y') (String.eqb i y')) (rvars r)).
             { apply eq_true_iff_eq. unfold extb. rewrite !existsb_exists. split.
               - intros [[a b] [Hab H]]. unfold extf in H. cbn [fst snd] in H.
@@ -497,4 +497,4 @@ Proof.
       apply ssum_not_I_intro; [exact Hf | discriminate].
 Qed.
 
-Print Assumptions loop_correction_sem.
+Print Assumptions loop_correction_sem_main.
